@@ -429,7 +429,7 @@ def check_concat(rec, datasets, case):
         rec.nontriv(["concat", len(datasets)], [case.get("seed"), case.get("seeds")])
 
 
-def real_result(rng):
+def real_result(rng, track_only=False):
     """A result of the real Collocator.collocate on C04's generator."""
     from typhon.collocations import Collocator
     from vt.models import colloc as M
@@ -440,10 +440,14 @@ def real_result(rng):
     p, s = M.gen_case(g)
     names = rng.choice([["primary", "secondary"], ["MHS", "AVHRR"]])
     np.random.seed(g["seed"] % 1000)
-    res = Collocator().collocate(
-        (names[0], c04.to_dataset(p, {"kind": "flat", "dim": "obs", "labels": "int"}, 1)),
-        (names[1], c04.to_dataset(s, {"kind": "flat", "dim": "y", "labels": "str"}, 2)),
-        max_interval=g["mi_ns"] // M.SEC, max_distance=g["r_km"])
+    ds1 = c04.to_dataset(p, {"kind": "flat", "dim": "obs", "labels": "int"}, 1)
+    ds2 = c04.to_dataset(s, {"kind": "flat", "dim": "y", "labels": "str"}, 2)
+    if track_only:
+        # a pure track: time / lat / lon are coordinates, the dataset has no data variable at all
+        ds2 = ds2[["time", "lat", "lon"]].set_coords(["time", "lat", "lon"])
+        g["track_only"] = True
+    res = Collocator().collocate((names[0], ds1), (names[1], ds2),
+                                 max_interval=g["mi_ns"] // M.SEC, max_distance=g["r_km"])
     return g, res
 
 
@@ -480,8 +484,11 @@ def run_shard(spec, rec):
                          {"kind": "concat", "specs": specs, "seed": cs["seed"]})
             if i % 3 == 0:
                 parts = []
+                track_only = rng.random() < 0.35      # (the same kind of secondary in all parts of one concat)
+                if track_only:
+                    rec.count("real.track_only_secondaries")
                 for _ in range(rng.choice([1, 2, 3, 4])):
-                    g, res = real_result(rng)
+                    g, res = real_result(rng, track_only)
                     if res is None:
                         continue
                     rec.count("real.collocate_inputs")
